@@ -268,7 +268,9 @@ impl DatabaseCheckpoint {
 		let wal_source = checkpoint_path.join("wal");
 		let wal_dest = self.core.opts.wal_dir();
 		if wal_source.exists() {
-			Self::copy_directory_sync(&wal_source, &wal_dest)?;
+			// Real copies, not hard links: the restored store appends to the newest
+			// segment, and through a link it would append to the checkpoint's file.
+			copy_dir_all(&wal_source, &wal_dest).map_err(|e| Error::Io(Arc::new(e)))?;
 		}
 
 		// Restore level manifest directory
